@@ -77,7 +77,14 @@ func runProgram(x *vg.Exec, p poolProgram) ([]byte, error) {
 	}
 	switch p.fail {
 	case 1: // pooled writer, abandoned after the failure
-		mw := spec.NewMessageWriter()
+		// both kinds of pooled writers: state from the state pool (NewMessageWriter) and writer+state
+		// from the writer pool (New*WriterBuffer, which generated code uses as well)
+		var mw spec.MessageWriter
+		if len(p.root.Fields)%2 == 0 {
+			mw = spec.NewMessageWriter()
+		} else {
+			mw = spec.NewMessageWriterBuffer(buffer.New())
+		}
 		for _, f := range prefix.Fields {
 			if f.Val.Kind <= vg.KString {
 				writeScalar(mw.Field(f.Tag), f.Val)
